@@ -1,6 +1,7 @@
 package props
 
 import (
+	"context"
 	"encoding/base64"
 	"encoding/json"
 	"errors"
@@ -35,7 +36,7 @@ func init() {
 func (c07) ID() string    { return "C07" }
 func (c07) Level() string { return "fault_enumeration" }
 func (c07) Rule() string {
-	return "unit = (target batch, mode, k): a history prefix builds a file-backed shard with every index type and a warm shared cache; for each target batch (insert / update / delete of 1, 7 or 40 points) a first run under the storage proxy fails the transaction at commit and counts the K storage operations it issued; then mode 'fail' makes the k-th failable operation (put / delete / scan / bucket open) return an error, mode 'kill' SIGKILLs the process at the k-th operation (any kind), before commit and right after commit (separate child process per kill, on a byte copy of the prefix file), and mode 'reject' issues batches that validation must refuse (duplicate id, stored id at first/middle/last position, oversized merge, wrong field type for every index type). After every failure: battery answers, point count and raw bucket digest of the RUNNING instance must equal the pre-batch ones, and so must a cold instance opened on a copy of the file; after a kill at or after commit exactly the pre-state or exactly the post-state is accepted; a call that reported success must have all effects visible (model comparison, warm and cold). Quick samples k (incl. first and last) and then fails the first and the last occurrence of every operation class (bucket, kind, key class) the sampled positions missed, thorough enumerates every k. Non-trivial = the fault fired (the k-th operation existed); distinct by (batch hash, mode, faulted bucket, operation kind, key class) for fail and (batch hash, mode, k) for kill."
+	return "unit = (target batch, mode, k): a history prefix builds a file-backed shard with every index type and a warm shared cache; for each target batch (insert / update / delete of 1, 7 or 40 points) a first run under the storage proxy fails the transaction at commit and counts the K storage operations it issued; then mode 'fail' makes the k-th failable operation (put / delete / scan / bucket open) return an error, mode 'kill' SIGKILLs the process at the k-th operation (any kind), before commit and right after commit (separate child process per kill, on a byte copy of the prefix file), mode 'panic' makes the storage layer panic at the k-th operation (same child set-up: the process may die of it, or the call returns and then the file must hold exactly what the call reported), and mode 'reject' issues batches that validation must refuse (duplicate id, stored id at first/middle/last position, oversized merge, wrong field type for every index type). After every failure: battery answers, point count and raw bucket digest of the RUNNING instance must equal the pre-batch ones, and so must a cold instance opened on a copy of the file; after a kill at or after commit exactly the pre-state or exactly the post-state is accepted; a call that reported success must have all effects visible (model comparison, warm and cold). Quick samples k (incl. first and last) and then fails the first and the last occurrence of every operation class (bucket, kind, key class) the sampled positions missed, thorough enumerates every k. Non-trivial = the fault fired (the k-th operation existed); distinct by (batch hash, mode, faulted bucket, operation kind, key class) for fail and (batch hash, mode, k) for kill."
 }
 func (c07) Assumptions() []string {
 	return []string{"SIGKILL realises 'the process dies at any instant'; torn writes on power loss are out of reach", "the k-th operation is not the same operation in every run (the pipeline is concurrent); coverage is the set of faulted (bucket, kind, key class)", "bucket reads (Get) cannot return an error in the storage interface, so they are kill points but not fail points"}
@@ -144,7 +145,7 @@ func c07KillMain(args []string) int {
 	}
 	// still alive: the kill point did not exist (k beyond the last operation)
 	all, _ := px.Counts()
-	fmt.Printf("SURVIVED ops=%d err=%v\n", all, err)
+	fmt.Printf("SURVIVED ops=%d fired=%v success=%v err=%v\n", all, px.Fired.Load(), err == nil, err)
 	s.Close()
 	return 0
 }
@@ -522,6 +523,12 @@ func (c07) RunCase(c fw.Case, env *fw.Env) *fw.CaseResult {
 	for _, k := range sampleKs(g, allOps, c.Int("kills", 10)) {
 		kps = append(kps, kp{proxy.KillOp, k})
 	}
+	// the storage layer panics at the k-th operation (an assertion of the store, a fault in mapped
+	// memory): the process may die of it - then the file holds the pre-state - or the call returns,
+	// and then what it reports must be what the file holds
+	for _, k := range sampleKs(g, allOps, max(4, c.Int("kills", 10)/2)) {
+		kps = append(kps, kp{proxy.PanicOp, k})
+	}
 	for i, p := range kps {
 		kpath := fmt.Sprintf("%s.kill%d", r.work, i)
 		if err := sx.CopyFile(r.prefix, kpath); err != nil {
@@ -531,16 +538,36 @@ func (c07) RunCase(c fw.Case, env *fw.Env) *fw.CaseResult {
 		sb, _ := json.Marshal(spec)
 		specFile := kpath + ".json"
 		os.WriteFile(specFile, sb, 0o644)
-		cmd := exec.Command(env.Exe, "c07kill", specFile)
+		// A child that neither dies nor comes back (a batch stuck after the injected event) is killed
+		// after two minutes and judged like any other killed process: by what its file holds.
+		cctx, ccancel := context.WithTimeout(context.Background(), 2*time.Minute)
+		cmd := exec.CommandContext(cctx, env.Exe, "c07kill", specFile)
 		outb, werr := cmd.CombinedOutput()
+		timedOut := cctx.Err() == context.DeadlineExceeded
+		ccancel()
 		killed := false
 		if ee, ok := werr.(*exec.ExitError); ok {
 			if ws, ok := ee.Sys().(syscall.WaitStatus); ok && ws.Signaled() && ws.Signal() == syscall.SIGKILL {
 				killed = true
 			}
 		}
-		modeName := map[proxy.Mode]string{proxy.KillOp: "kill-at-op", proxy.KillBeforeCommit: "kill-before-commit", proxy.KillAfterCommit: "kill-after-commit"}[p.mode]
+		if timedOut {
+			res.Stat("children_stuck_and_killed_after_2_minutes", 1)
+		}
+		modeName := map[proxy.Mode]string{proxy.KillOp: "kill-at-op", proxy.KillBeforeCommit: "kill-before-commit", proxy.KillAfterCommit: "kill-after-commit", proxy.PanicOp: "panic-at-op"}[p.mode]
 		what := fmt.Sprintf("%s of %d points, process %s %d", op.Kind, op.Size(), modeName, p.k)
+		survivedPanic, reportedSuccess := false, false
+		if p.mode == proxy.PanicOp && !killed {
+			switch {
+			case werr != nil && strings.Contains(string(outb), "injected storage panic"):
+				killed = true // died of the panic
+				res.Stat("panics_that_killed_the_process", 1)
+			case strings.Contains(string(outb), "SURVIVED") && strings.Contains(string(outb), "fired=true"):
+				killed, survivedPanic = true, true // the call came back: judged below
+				reportedSuccess = strings.Contains(string(outb), "success=true")
+				res.Stat("panics_the_call_survived", 1)
+			}
+		}
 		if !killed {
 			if strings.Contains(string(outb), "SURVIVED") {
 				res.Stat("kill_points_beyond_last_op", 1)
@@ -559,7 +586,7 @@ func (c07) RunCase(c fw.Case, env *fw.Env) *fw.CaseResult {
 			continue
 		}
 		cd, _ := sx.DumpStore(cold.Shard.VerifDiskStore(), schema)
-		if cd != nil && cd.Digest() == r.preDig {
+		if cd != nil && cd.Digest() == r.preDig && !(survivedPanic && reportedSuccess) {
 			res.Stat("kill_left_pre_state", 1)
 			ca := r.answers(cold)
 			for j, b := range r.bat {
@@ -568,7 +595,7 @@ func (c07) RunCase(c fw.Case, env *fw.Env) *fw.CaseResult {
 					break
 				}
 			}
-		} else if p.mode == proxy.KillAfterCommit {
+		} else if p.mode == proxy.KillAfterCommit || survivedPanic && reportedSuccess {
 			res.Stat("kill_left_post_state", 1)
 			checkStore(res, "C07:after-kill-post", cold, post, nil, i, true)
 			if cd != nil {
